@@ -295,7 +295,7 @@ impl Run {
             }
             let p = self.replay_path(&f.key);
             let _ = std::fs::create_dir_all(p.parent().unwrap());
-            let body = json!({"property": self.prop, "key": f.key, "what": f.what, "witness": f.witness, "count": f.count});
+            let body = json!({"property": self.prop, "tier": self.tier.name(), "key": f.key, "what": f.what, "witness": f.witness, "count": f.count});
             let _ = std::fs::write(&p, serde_json::to_string_pretty(&body).unwrap());
             viol_lines.push(format!(
                 "VIOLATION property={} replay={}",
@@ -417,6 +417,35 @@ impl Run {
         let fd = embedded_fd().unwrap();
         unsafe { libc::write(fd, line.as_ptr() as *const libc::c_void, line.len()) };
         0
+    }
+}
+
+/// Replay mode: `./check <ID> --replay <file>` loads the artefact written for a violation.
+pub fn replay_artefact() -> Option<Value> {
+    let p = std::env::var("AXMC_REPLAY").ok()?;
+    let t = std::fs::read_to_string(&p).ok()?;
+    serde_json::from_str(&t).ok()
+}
+
+/// Replays one artefact on fresh machines with the property's own confirmation function.
+pub fn finish_replay(prop: &str, art: &Value, confirm: &dyn Fn(&[Value]) -> Vec<Result<Vec<String>, String>>) -> i32 {
+    let key = art["key"].as_str().unwrap_or("").to_string();
+    let w = art["witness"].clone();
+    let path = std::env::var("AXMC_REPLAY").unwrap_or_default();
+    match confirm(std::slice::from_ref(&w)).pop() {
+        Some(Ok(keys)) => {
+            println!("observed keys: {keys:?}");
+            if keys.iter().any(|k| *k == key) {
+                println!("recorded disagreement reproduced: {key}");
+                println!("VIOLATION property={prop} replay={path}");
+                1
+            } else {
+                println!("recorded key {key} did not reproduce");
+                0
+            }
+        }
+        Some(Err(e)) => machinery_error(&format!("replay failed: {e}")),
+        None => machinery_error("replay returned nothing"),
     }
 }
 
